@@ -2755,8 +2755,9 @@ struct X86Emitter {
 // Compile + native execution in a forked child
 // ---------------------------------------------------------------------------------------------------------------
 
-static const int NINPUTS_MAX = 32;
-static const u32 CALLCAP = 512;
+static const int NINPUTS_MAX = 16;
+static const int BATCH_MAX = 32;
+static const u32 CALLCAP = 160;
 
 struct ShmSlot {
   volatile u32 done;
@@ -2766,9 +2767,10 @@ struct ShmSlot {
   u8 buf[BUF_SIZE];
 };
 struct Shm {
-  volatile u32 progress;
+  volatile u32 progress;        // input index inside the program being executed
+  volatile u32 progress_item;   // index of the program (batch item) being executed
   volatile u64 crash_rip, crash_addr, crash_sig, fn_base;
-  ShmSlot slot[NINPUTS_MAX];
+  ShmSlot slot[NINPUTS_MAX * BATCH_MAX];
 };
 
 static Shm* g_shm = nullptr;
@@ -2822,55 +2824,82 @@ static NOSAN void child_crash_handler(int sig, siginfo_t* si, void* uc_) {
   _exit(100 + (sig & 31));
 }
 
-static ExecOutcome exec_native(void* fn, const Program& P, const std::vector<RunInput>& inputs) {
-  ExecOutcome out;
-  int n = (int)inputs.size();
-  g_shm->progress = 0;
-  for (int k = 0; k < n; k++) { g_shm->slot[k].done = 0; g_shm->slot[k].ncalls = 0; }
-  fflush(stdout); fflush(stderr);
-  pid_t pid = fork();
-  if (pid < 0) { out.status = EX_FORKFAIL; return out; }
-  if (pid == 0) {
-    static u8 altstack[65536];
-    stack_t ss; ss.ss_sp = altstack; ss.ss_size = sizeof altstack; ss.ss_flags = 0;
-    sigaltstack(&ss, nullptr);
-    struct sigaction sa; memset(&sa, 0, sizeof sa);
-    sa.sa_sigaction = child_crash_handler; sa.sa_flags = SA_SIGINFO | SA_ONSTACK | SA_NODEFER;
-    sigaction(SIGSEGV, &sa, nullptr); sigaction(SIGBUS, &sa, nullptr); sigaction(SIGILL, &sa, nullptr); sigaction(SIGFPE, &sa, nullptr);
-    sigaction(SIGTRAP, &sa, nullptr);
-    signal(SIGABRT, SIG_DFL); signal(SIGPROF, SIG_DFL); signal(SIGALRM, SIG_DFL);
-    g_shm->fn_base = (u64)(uintptr_t)fn;
-    struct itimerval it; memset(&it, 0, sizeof it); it.it_value.tv_sec = 4;
-    setitimer(ITIMER_PROF, &it, nullptr);
-    alarm(90);
-    bool retd = P.retval >= 0 && P.vals[P.retval].kind == KIND_D;
-    for (int k = 0; k < n; k++) {
-      g_shm->progress = (u32)k;
-      ShmSlot& s = g_shm->slot[k];
-      memset(g_jitbuf, 0, BUF_SIZE);
-      memcpy(g_jitbuf, inputs[k].data, DATA_SIZE);
-      g_log = s.calls; g_logn = &s.ncalls; g_logcap = CALLCAP;
-      s.ret = call_native(fn, P.sigclass, retd, g_jitbuf, inputs[k]);
-      memcpy(s.buf, g_jitbuf, BUF_SIZE);
-      s.done = 1;
+struct ExecItem {
+  void* fn = nullptr;
+  const Program* P = nullptr;
+  const std::vector<RunInput>* inputs = nullptr;
+  int slot_base = 0;
+  ExecOutcome eo;
+};
+
+// Runs all items in ONE forked child (a fork of an ASan process is expensive); if the child dies while executing
+// item p, that item gets the crash/hang outcome and a new child continues with item p+1.
+static void exec_native_batch(std::vector<ExecItem>& items) {
+  int base = 0;
+  for (ExecItem& it : items) {
+    it.slot_base = base;
+    int n = (int)it.inputs->size();
+    for (int k = 0; k < n; k++) { g_shm->slot[base + k].done = 0; g_shm->slot[base + k].ncalls = 0; }
+    base += n;
+  }
+  size_t start = 0;
+  while (start < items.size()) {
+    g_shm->progress = 0;
+    g_shm->progress_item = (u32)start;
+    fflush(stdout); fflush(stderr);
+    pid_t pid = fork();
+    if (pid < 0) { for (size_t i = start; i < items.size(); i++) items[i].eo.status = EX_FORKFAIL; return; }
+    if (pid == 0) {
+      static u8 altstack[65536];
+      stack_t ss; ss.ss_sp = altstack; ss.ss_size = sizeof altstack; ss.ss_flags = 0;
+      sigaltstack(&ss, nullptr);
+      struct sigaction sa; memset(&sa, 0, sizeof sa);
+      sa.sa_sigaction = child_crash_handler; sa.sa_flags = SA_SIGINFO | SA_ONSTACK | SA_NODEFER;
+      sigaction(SIGSEGV, &sa, nullptr); sigaction(SIGBUS, &sa, nullptr); sigaction(SIGILL, &sa, nullptr); sigaction(SIGFPE, &sa, nullptr);
+      sigaction(SIGTRAP, &sa, nullptr);
+      signal(SIGABRT, SIG_DFL); signal(SIGPROF, SIG_DFL); signal(SIGALRM, SIG_DFL);
+      alarm(120);
+      for (size_t p = start; p < items.size(); p++) {
+        ExecItem& it = items[p];
+        g_shm->progress_item = (u32)p;
+        g_shm->fn_base = (u64)(uintptr_t)it.fn;
+        // CPU-time limit per program
+        struct itimerval tv; memset(&tv, 0, sizeof tv); tv.it_value.tv_sec = 4;
+        setitimer(ITIMER_PROF, &tv, nullptr);
+        const Program& P = *it.P;
+        bool retd = P.retval >= 0 && P.vals[P.retval].kind == KIND_D;
+        int n = (int)it.inputs->size();
+        for (int k = 0; k < n; k++) {
+          g_shm->progress = (u32)k;
+          ShmSlot& s = g_shm->slot[it.slot_base + k];
+          memset(g_jitbuf, 0, BUF_SIZE);
+          memcpy(g_jitbuf, (*it.inputs)[k].data, DATA_SIZE);
+          g_log = s.calls; g_logn = &s.ncalls; g_logcap = CALLCAP;
+          s.ret = call_native(it.fn, P.sigclass, retd, g_jitbuf, (*it.inputs)[k]);
+          memcpy(s.buf, g_jitbuf, BUF_SIZE);
+          s.done = 1;
+        }
+      }
+      _exit(0);
     }
-    _exit(0);
-  }
-  int st = 0;
-  while (waitpid(pid, &st, 0) < 0 && errno == EINTR) {}
-  if (WIFSIGNALED(st)) {
-    out.sig = WTERMSIG(st);
+    int st = 0;
+    while (waitpid(pid, &st, 0) < 0 && errno == EINTR) {}
+    if (WIFEXITED(st) && WEXITSTATUS(st) == 0) return;
+    size_t p = g_shm->progress_item;
+    if (p < start || p >= items.size()) p = start;
+    ExecOutcome& out = items[p].eo;
     out.at_input = (int)g_shm->progress;
-    out.status = out.sig == SIGPROF ? EX_HANG : out.sig == SIGALRM ? EX_WATCHDOG : EX_CRASH;
+    if (WIFSIGNALED(st)) {
+      out.sig = WTERMSIG(st);
+      out.status = out.sig == SIGPROF ? EX_HANG : out.sig == SIGALRM ? EX_WATCHDOG : EX_CRASH;
+    }
+    else if (WIFEXITED(st) && WEXITSTATUS(st) >= 100) {
+      out.status = EX_CRASH; out.sig = (int)g_shm->crash_sig;
+      out.rip_off = g_shm->crash_rip - g_shm->fn_base; out.addr = g_shm->crash_addr;
+    }
+    else { out.status = EX_CRASH; out.sig = -1; }
+    start = p + 1;
   }
-  else if (WIFEXITED(st) && WEXITSTATUS(st) >= 100) {
-    out.status = EX_CRASH; out.sig = (int)g_shm->crash_sig; out.at_input = (int)g_shm->progress;
-    out.rip_off = g_shm->crash_rip - g_shm->fn_base; out.addr = g_shm->crash_addr;
-  }
-  else if (!WIFEXITED(st) || WEXITSTATUS(st) != 0) {
-    out.status = EX_CRASH; out.sig = -1; out.at_input = (int)g_shm->progress;
-  }
-  return out;
 }
 
 struct Compiled {
@@ -3006,33 +3035,30 @@ struct Counters {
   u64 fuel_exhausted = 0;
 };
 
-// runs program P on the inputs; returns verdict; fills expected/observed for reporting
-static Verdict check_program(const Program& P, const std::vector<RunInput>& inputs, Compiled& comp, Counters* ctr, bool annotate) {
-  Verdict v;
-  // reference results first: a program that is not well-defined is a harness error, never a violation
-  std::vector<RunResult> ref(inputs.size());
+static bool reference_run(const Program& P, const std::vector<RunInput>& inputs, std::vector<RunResult>& ref, Counters* ctr, Verdict& v) {
+  ref.resize(inputs.size());
   for (size_t k = 0; k < inputs.size(); k++) {
     Interp it(P);
     if (g_trace_val >= 0 && inputs.size() == 1) it.trace_val = g_trace_val;
     ref[k] = it.run(inputs[k]);
-    if (it.bad) { v.kind = 5; v.input = (int)k; v.what = "generated program is not well-defined: " + it.badmsg; return v; }
+    if (it.bad) { v.kind = 5; v.input = (int)k; v.what = "generated program is not well-defined: " + it.badmsg; return false; }
     if (ctr) { ctr->dyn_ops += it.steps; ctr->calls_logged += it.ncalls; }
   }
-  if (!compile_x86(P, comp, annotate)) {
-    v.kind = 4;
-    v.what = "Compiler " + comp.stage + " failed: " + std::string(DebugUtils::error_as_string(comp.err)) + " (" + comp.errmsg + ")";
-    return v;
-  }
-  ExecOutcome eo = exec_native(comp.fn, P, inputs);
-  g_rt->release(comp.fn);
+  return true;
+}
+
+static Verdict compare_results(const Program& P, const std::vector<RunInput>& inputs, const std::vector<RunResult>& ref, const ExecItem& item) {
+  Verdict v;
+  const ExecOutcome& eo = item.eo;
   if (eo.status == EX_FORKFAIL || eo.status == EX_WATCHDOG) { v.kind = 5; v.what = eo.status == EX_FORKFAIL ? "fork failed" : "wall-clock watchdog in child"; return v; }
   u64 rm = ret_mask(P);
   for (size_t k = 0; k < inputs.size(); k++) {
-    const ShmSlot& s = g_shm->slot[k];
+    const ShmSlot& s = g_shm->slot[item.slot_base + k];
     if (!s.done) {
       v.input = (int)k;
       char b[200];
       if (eo.status == EX_HANG) { v.kind = 3; snprintf(b, sizeof b, "generated code did not terminate (CPU-time limit) on input %zu", k); }
+      else if (eo.status == EX_OK) { v.kind = 5; snprintf(b, sizeof b, "no result recorded for input %zu although the child exited normally", k); }
       else { v.kind = 2; snprintf(b, sizeof b, "generated code crashed with signal %d at code offset 0x%llx (fault address 0x%llx) on input %zu", eo.sig,
                      (unsigned long long)eo.rip_off, (unsigned long long)eo.addr, k); }
       v.what = b;
@@ -3066,6 +3092,24 @@ static Verdict check_program(const Program& P, const std::vector<RunInput>& inpu
     }
   }
   return v;
+}
+
+// runs one program on the inputs (own child process); used by the shrinker and the probes
+static Verdict check_program(const Program& P, const std::vector<RunInput>& inputs, Compiled& comp, Counters* ctr, bool annotate) {
+  Verdict v;
+  std::vector<RunResult> ref;
+  // reference results first: a program that is not well-defined is a harness error, never a violation
+  if (!reference_run(P, inputs, ref, ctr, v)) return v;
+  if (!compile_x86(P, comp, annotate)) {
+    v.kind = 4;
+    v.what = "Compiler " + comp.stage + " failed: " + std::string(DebugUtils::error_as_string(comp.err)) + " (" + comp.errmsg + ")";
+    return v;
+  }
+  std::vector<ExecItem> items(1);
+  items[0].fn = comp.fn; items[0].P = &P; items[0].inputs = &inputs;
+  exec_native_batch(items);
+  g_rt->release(comp.fn);
+  return compare_results(P, inputs, ref, items[0]);
 }
 
 // ---------------------------------------------------------------------------------------------------------------
@@ -3815,7 +3859,10 @@ static TaskResult run_child_task(const std::function<void(std::string&)>& fn) {
   pid_t pid = fork();
   if (pid < 0) return r;
   if (pid == 0) {
-    alarm(300);
+    signal(SIGPROF, SIG_DFL); signal(SIGALRM, SIG_DFL);
+    struct itimerval tv; memset(&tv, 0, sizeof tv); tv.it_value.tv_sec = 10;   // CPU time: a compile normally takes milliseconds
+    setitimer(ITIMER_PROF, &tv, nullptr);
+    alarm(240);
     std::string out;
     fn(out);
     if (out.size() + 8 > TASK_SHM_SIZE) out.resize(TASK_SHM_SIZE - 8);
@@ -3879,7 +3926,10 @@ static bool run_other_mode(const std::string& mode, const Args& args, Counters& 
       std::string tag, payload; EmitStats st;
       if (!tr.ok || !parse_stats_line(tr.out, tag, st, payload)) {
         ctr.compile_errors++;
-        add_violation(viols, "a64:ra-crash:" + P.profile, "the AArch64 Compiler crashed (signal " + std::to_string(tr.sig) + ", exit code " + std::to_string(tr.exitcode) +
+        if (tr.sig == SIGALRM) { ctr.ops_by_kind["watchdog-inconclusive"]++; continue; }
+        add_violation(viols, std::string(tr.sig == SIGPROF ? "a64:ra-hang:" : "a64:ra-crash:") + P.profile,
+                      std::string(tr.sig == SIGPROF ? "the AArch64 Compiler did not terminate within 10 s of CPU time" : "the AArch64 Compiler crashed") + " (signal " +
+                      std::to_string(tr.sig) + ", exit code " + std::to_string(tr.exitcode) +
                       ", see sanitizer report) while compiling program index=" + std::to_string(idx) + " profile=" + P.profile, serialise(P), idx);
         continue;
       }
@@ -3929,8 +3979,10 @@ static bool run_other_mode(const std::string& mode, const Args& args, Counters& 
       std::string tag, payload; EmitStats st;
       if (!tr.ok || !parse_stats_line(tr.out, tag, st, payload)) {
         ctr.compile_errors++;
-        add_violation(viols, cls + ":ra-crash:" + what + (L.nvals > 32 ? ":pressure" : ""), "the Compiler crashed (signal " + std::to_string(tr.sig) + ", exit code " +
-                      std::to_string(tr.exitcode) + ", see sanitizer report) on a register-list program index=" + std::to_string(idx), ser, idx);
+        if (tr.sig == SIGALRM) { ctr.ops_by_kind["watchdog-inconclusive"]++; continue; }
+        add_violation(viols, cls + (tr.sig == SIGPROF ? ":ra-hang:" : ":ra-crash:") + what + (L.nvals > 32 ? ":pressure" : ""),
+                      std::string(tr.sig == SIGPROF ? "the Compiler did not terminate within 10 s of CPU time" : "the Compiler crashed") + " (signal " + std::to_string(tr.sig) +
+                      ", exit code " + std::to_string(tr.exitcode) + ", see sanitizer report) on a register-list program index=" + std::to_string(idx), ser, idx);
         continue;
       }
       if (tag == "ERR") {
@@ -4229,6 +4281,66 @@ int main(int argc, char** argv) {
     g_rt = &rt;
     init_exec_env();
     u64 nshapes = shape_count();
+    struct Pending { Program P; std::vector<RunInput> inputs; std::vector<RunResult> ref; Compiled comp; Verdict v; u64 idx; u64 ph; };
+    std::vector<Pending*> pending;
+    std::map<std::string, int> shrunk_per_key;
+    int batch = (int)args.u64("batch", 24);
+    if (batch > BATCH_MAX) batch = BATCH_MAX;
+    if (batch * ninputs > NINPUTS_MAX * BATCH_MAX) batch = NINPUTS_MAX * BATCH_MAX / ninputs;
+    auto flush = [&]() {
+      std::vector<ExecItem> items;
+      std::vector<Pending*> owners;
+      for (Pending* pd : pending) {
+        if (pd->v.kind == 4) continue;
+        ExecItem it; it.fn = pd->comp.fn; it.P = &pd->P; it.inputs = &pd->inputs;
+        items.push_back(it); owners.push_back(pd);
+      }
+      if (!items.empty()) exec_native_batch(items);
+      for (size_t i = 0; i < items.size(); i++) {
+        owners[i]->v = compare_results(owners[i]->P, owners[i]->inputs, owners[i]->ref, items[i]);
+        g_rt->release(owners[i]->comp.fn);
+      }
+      for (Pending* pd : pending) {
+        const Program& P = pd->P;
+        Verdict& v = pd->v;
+        Compiled& comp = pd->comp;
+        u64 idx = pd->idx;
+        if (v.kind == 5) { harness_errors.push_back("program " + std::to_string(idx) + " (" + P.profile + "): " + v.what); delete pd; continue; }
+        if (v.kind != 4) {
+          ctr.inputs_run += pd->inputs.size();
+          ctr.loads += comp.st.loads; ctr.saves += comp.st.saves; ctr.moves += comp.st.moves; ctr.swaps += comp.st.swaps;
+          ctr.rm_subst += comp.st.rm_subst; ctr.user_insts += comp.st.user_insts;
+          if (comp.st.nontrivial()) { ctr.nontrivial++; ctr.distinct_nontrivial.insert(pd->ph); }
+        }
+        else ctr.compile_errors++;
+        if (v.kind != 0) {
+          // shrink and report
+          int attempts = 0;
+          Program S = P;
+          RunInput fin = pd->inputs[v.input >= 0 ? v.input : 0];
+          static const char* kinds0[] = { "ok", "miscompile", "crash", "hang", "finalize-error", "harness" };
+          std::string k0 = std::string(kinds0[v.kind]) + ":" + P.profile;
+          // shrinking is expensive: only the first two failures of a kind/profile per process are shrunk
+          if (shrink_budget > 0 && shrunk_per_key[k0]++ < 2) S = shrink_program(P, fin, v.kind, shrink_budget, attempts);
+          Compiled c2;
+          std::vector<RunInput> one(1, fin);
+          Verdict v2 = check_program(S, one, c2, nullptr, false);
+          ViolationOut vo;
+          static const char* kinds[] = { "ok", "miscompile", "crash", "hang", "finalize-error", "harness" };
+          std::string cls = P.profile;
+          if (mode == "shapes") cls = "shape";
+          vo.key = std::string("x64:") + kinds[v.kind] + ":" + cls;
+          if (v.kind == 4) vo.key = std::string("x64:finalize-error:") + DebugUtils::error_as_string(comp.err);
+          vo.what = v.what + " | profile=" + P.profile + " index=" + std::to_string(idx) + " | after shrinking (" + std::to_string(attempts) + " attempts): " +
+                    (v2.kind ? v2.what : std::string("(shrunk program no longer fails; witness is the original)"));
+          vo.witness = serialise(v2.kind ? S : P) + "input: " + input_to_string(fin);
+          vo.index = idx; vo.input = v.input;
+          viols.push_back(vo);
+        }
+        delete pd;
+      }
+      pending.clear();
+    };
     for (u64 idx = first; idx < first + count; idx++) {
       Rng pr = Rng(seed * 0x9E3779B97F4A7C15ull + 0xC05).fork(idx + (mode == "shapes" ? 0x5000000 : 0));
       const Profile* pf;
@@ -4267,39 +4379,21 @@ int main(int argc, char** argv) {
       for (const Block& b : P.blocks) if (b.term.kind == T_SWITCH) { ctr.by_shape_kind["has-jump-table"]++; break; }
       for (const Block& b : P.blocks) if (b.term.kind == T_DEC) { ctr.by_shape_kind["has-counted-loop"]++; break; }
 
-      Compiled comp;
-      Verdict v = check_program(P, inputs, comp, &ctr, annotate);
+      Pending* pd = new Pending();
+      pd->P = P; pd->inputs = inputs; pd->idx = idx; pd->ph = ph;
+      if (!reference_run(pd->P, pd->inputs, pd->ref, &ctr, pd->v)) {
+        harness_errors.push_back("program " + std::to_string(idx) + " (" + P.profile + "): " + pd->v.what);
+        delete pd; continue;
+      }
       ctr.evaluations++;
-      if (v.kind == 5) { harness_errors.push_back("program " + std::to_string(idx) + " (" + P.profile + "): " + v.what); continue; }
-      if (v.kind != 4) {
-        ctr.inputs_run += inputs.size();
-        ctr.loads += comp.st.loads; ctr.saves += comp.st.saves; ctr.moves += comp.st.moves; ctr.swaps += comp.st.swaps;
-        ctr.rm_subst += comp.st.rm_subst; ctr.user_insts += comp.st.user_insts;
-        if (comp.st.nontrivial()) { ctr.nontrivial++; ctr.distinct_nontrivial.insert(ph); }
+      if (!compile_x86(pd->P, pd->comp, annotate)) {
+        pd->v.kind = 4;
+        pd->v.what = "Compiler " + pd->comp.stage + " failed: " + std::string(DebugUtils::error_as_string(pd->comp.err)) + " (" + pd->comp.errmsg + ")";
       }
-      else ctr.compile_errors++;
-      if (v.kind != 0) {
-        // shrink and report
-        int attempts = 0;
-        Program S = P;
-        RunInput fin = inputs[v.input >= 0 ? v.input : 0];
-        if (shrink_budget > 0) S = shrink_program(P, fin, v.kind, shrink_budget, attempts);
-        Compiled c2;
-        std::vector<RunInput> one(1, fin);
-        Verdict v2 = check_program(S, one, c2, nullptr, false);
-        ViolationOut vo;
-        static const char* kinds[] = { "ok", "miscompile", "crash", "hang", "finalize-error", "harness" };
-        std::string cls = P.profile;
-        if (mode == "shapes") cls = "shape";
-        vo.key = std::string("x64:") + kinds[v.kind] + ":" + cls;
-        if (v.kind == 4) vo.key += std::string(":") + DebugUtils::error_as_string(comp.err);
-        vo.what = v.what + " | profile=" + P.profile + " index=" + std::to_string(idx) + " | after shrinking (" + std::to_string(attempts) + " attempts): " +
-                  (v2.kind ? v2.what : std::string("(shrunk program no longer fails; witness is the original)"));
-        vo.witness = serialise(v2.kind ? S : P) + "input: " + input_to_string(fin);
-        vo.index = idx; vo.input = v.input;
-        viols.push_back(vo);
-      }
+      pending.push_back(pd);
+      if ((int)pending.size() >= batch) flush();
     }
+    flush();
   }
   else if (mode == "x86") {
     std::string progs = "[";
@@ -4321,7 +4415,7 @@ int main(int argc, char** argv) {
       if (!ok) {
         ctr.compile_errors++;
         ViolationOut vo;
-        vo.key = std::string("x86-32:finalize-error:") + P.profile + ":" + DebugUtils::error_as_string(comp.err);
+        vo.key = std::string("x86-32:finalize-error:") + DebugUtils::error_as_string(comp.err);
         vo.what = "x86-32 Compiler " + comp.stage + " failed: " + DebugUtils::error_as_string(comp.err) + " (" + comp.errmsg + ") profile=" + P.profile +
                   " index=" + std::to_string(idx);
         vo.witness = serialise(P); vo.index = idx; vo.input = -1;
